@@ -14,14 +14,16 @@ ID = "C29"
 N = {"quick": 170, "thorough": 4000}
 BUDGET = {"quick": 240.0, "thorough": 700.0}
 RULE = ("case = (recombining simulation / inference with 0-4 deleted interior intervals so that nodes "
-        "have up to 5 disjoint pieces; mutations above split roots, on isolated samples, and sites "
+        "have up to 5 disjoint pieces, genome lengths 1e3..1e8 with gaps down to 1 base; mutations above split roots, on isolated samples, and sites "
         "beyond the last edge; node metadata none / permissive JSON / struct / raw bytes); distinct by "
         "topology hash; non-trivial = at least one node was split")
 
 
 def make_input(rng, i):
-    ts, r = zoo.sim(rng, n=int(rng.integers(3, 12)), L=1e3, mut_per_edge=float(rng.choice([1.0, 4.0])),
-                    rec=float(rng.choice([2.0, 8.0, 30.0])) / (4 * 100.0 * 1e3), Ne=100.0)
+    # genome lengths up to 1e8 with gaps of a few bases: a gap is a gap whatever the coordinates
+    L0 = float(rng.choice([1e3, 1e3, 1e6, 1e8]))
+    ts, r = zoo.sim(rng, n=int(rng.integers(3, 12)), L=L0, mut_per_edge=float(rng.choice([1.0, 4.0])),
+                    rec=float(rng.choice([2.0, 8.0, 30.0])) / (4 * 100.0 * L0), Ne=100.0)
     if i % 6 == 5:
         try:
             ts, r = zoo.inferred(rng, L=1e3)
@@ -34,6 +36,9 @@ def make_input(rng, i):
     ivs = []
     for _ in range(k):
         a, b = sorted(rng.integers(1, int(L) - 1, size=2))
+        if L > 1e3 and rng.random() < 0.6:
+            a = int(rng.integers(int(L) // 2, int(L) - 300))
+            b = a + int(rng.choice([1, 2, 5, 50, 200]))
         if b > a:
             ivs.append([int(a), int(b)])
     ivs.sort()
@@ -128,6 +133,8 @@ def case(ctx, i, rec):
                       f"valid input raised {common.exc_key(e)} (extra mutations {r['extra']})")
         return
     rec.count("returned")
+    if ts.sequence_length >= 1e6 and any(b - a <= 200 for a, b in r["deleted"]):
+        rec.count("inputs_with_narrow_gap_at_large_coordinates")
     for k_, v_ in r["extra"].items():
         if v_:
             rec.count(f"inputs_with_{k_}_mutations")
@@ -267,5 +274,6 @@ def case(ctx, i, rec):
 
 def reach(ctx, agg):
     need = {"returned": 100, "inputs_with_split_nodes": 60, "inputs_with_root_mutations": 20,
-            "tree_intervals_compared": 1000, "idempotence_checked": 100}
+            "tree_intervals_compared": 1000, "idempotence_checked": 100,
+            "inputs_with_narrow_gap_at_large_coordinates": 15}
     return [f"{k} = {agg.cnt.get(k, 0)} < {v}" for k, v in need.items() if agg.cnt.get(k, 0) < v]
